@@ -267,7 +267,7 @@ def drive(prop, clause, n_examples, seed, known, shrink_budget_s=90.0):
     from hypothesis import given, settings, HealthCheck, Phase
     stats = ClauseStats(clause.name)
     t0 = time.time()
-    state = {"first_fail_t": None, "best": None, "best_exc": None}
+    state = {"first_fail_t": None, "best": None, "best_exc": None, "first": None}
 
     def body(case):
         if stats.timeouts:
@@ -278,6 +278,7 @@ def drive(prop, clause, n_examples, seed, known, shrink_budget_s=90.0):
         if exc is not None:
             if state["first_fail_t"] is None:
                 state["first_fail_t"] = time.time()
+                state["first"] = json.loads(canon(case))
             state["best"] = json.loads(canon(case))
             state["best_exc"] = exc
             raise exc
@@ -303,7 +304,14 @@ def drive(prop, clause, n_examples, seed, known, shrink_budget_s=90.0):
             # an error that did not come from a case evaluation = harness problem
             raise
     if state["best"] is not None:
-        stats.failures.append(record_failure(prop, clause, state["best"], known))
+        rec = record_failure(prop, clause, state["best"], known)
+        if not rec["reproduced"] and state["first"] is not None and state["first"] != state["best"]:
+            # a failure that only shows with some probability (data race, heap contents) usually stops reproducing
+            # once Hypothesis has shrunk the case; fall back to the first, unshrunk failing case
+            rec2 = record_failure(prop, clause, state["first"], known)
+            if rec2["reproduced"]:
+                rec = rec2
+        stats.failures.append(rec)
     stats.wall = time.time() - t0
     return stats
 
@@ -328,8 +336,12 @@ def drive_exhaustive(prop, clause, cases, known, max_fail=1):
 def record_failure(prop, clause, case, known):
     """Re-evaluate the (shrunk) case outside Hypothesis, write the replay file."""
     st = ClauseStats(clause.name)
-    exc = evaluate(clause, case, st, known)
-    msg = "did not reproduce on direct replay (flaky)" if exc is None else "%s: %s" % (type(exc).__name__, exc)
+    exc = None
+    for _attempt in range(5):          # probabilistic failures (races) get several direct replays
+        exc = evaluate(clause, case, st, known)
+        if exc is not None:
+            break
+    msg = "did not reproduce in 5 direct replays (flaky)" if exc is None else "%s: %s" % (type(exc).__name__, exc)
     sig = sig_of(exc) if exc is not None else "flaky"
     d = os.path.join(OUT, "replays", prop)
     os.makedirs(d, exist_ok=True)
